@@ -37,7 +37,17 @@ typedef struct {
 	sqfs_u8 data[BLK_DATA];
 } c09_blk_t;
 
-static c09_blk_t g_blk[4];		/* blocks inside the pool, in submit order */
+/* blocks inside the pool, in submit order: distinct objects, so that a
+ * pointer to one is an object identity (keeps symbolic execution from
+ * treating constant fields such as inode == NULL as unknown) */
+static c09_blk_t g_blk0, g_blk1, g_blk2, g_blk3;
+static c09_blk_t *BLK(size_t i)
+{
+	switch (i) {
+	case 0: return &g_blk0; case 1: return &g_blk1;
+	case 2: return &g_blk2; default: return &g_blk3;
+	}
+}
 static c09_blk_t g_cur, g_frag;		/* blk_current / frag_block stand-ins */
 static size_t g_inpool, g_next;
 static int g_pstatus;			/* pool status now */
@@ -69,7 +79,7 @@ static void *stub_dequeue(thread_pool_t *pool)
 		g_null_returned = 1;
 		return NULL;
 	}
-	blk = &g_blk[g_next].b;
+	blk = &BLK(g_next)->b;
 	g_next += 1;
 	g_inpool -= 1;
 	if (g_pstatus != 0)
@@ -88,6 +98,43 @@ static int stub_submit(thread_pool_t *pool, void *ptr)
 	(void)pool; (void)ptr;
 	VERIF_ASSERT(0, "C09.bp.unreachable");
 	return -1;
+}
+
+/* call sites of the two translation units that this scenario never reaches */
+static void stub_unreach_destroy(sqfs_object_t *o)
+{
+	(void)o;
+	VERIF_ASSERT(0, "C09.bp.unreachable");
+}
+static sqfs_object_t *stub_unreach_copy(const sqfs_object_t *o)
+{
+	(void)o;
+	VERIF_ASSERT(0, "C09.bp.unreachable");
+	return NULL;
+}
+static int stub_unreach_read_at(sqfs_file_t *f, sqfs_u64 off, void *buf, size_t n)
+{
+	(void)f; (void)off; (void)buf; (void)n;
+	VERIF_ASSERT(0, "C09.bp.unreachable");
+	return -1;
+}
+static sqfs_s32 stub_unreach_do_block(sqfs_compressor_t *c, const sqfs_u8 *in,
+				      sqfs_u32 n, sqfs_u8 *out, sqfs_u32 m)
+{
+	(void)c; (void)in; (void)n; (void)out; (void)m;
+	VERIF_ASSERT(0, "C09.bp.unreachable");
+	return -1;
+}
+static size_t stub_unreach_get_worker_count(thread_pool_t *p)
+{
+	(void)p;
+	VERIF_ASSERT(0, "C09.bp.unreachable");
+	return 1;
+}
+static void stub_unreach_set_worker_ptr(thread_pool_t *p, size_t i, void *u)
+{
+	(void)p; (void)i; (void)u;
+	VERIF_ASSERT(0, "C09.bp.unreachable");
 }
 
 static int stub_write_data_block(sqfs_block_writer_t *wr, void *user,
